@@ -14,6 +14,7 @@ def run(F, G, tier, seed):
     positions.run_setpath(chk, F, CG)
     positions.run_xpath(chk, F, CG)
     positions.run_tcpos(chk, F)
+    positions.run_gap(chk, F, CG)
     chk.assume("scanner positions are monotone within a parse and YYLLOC_DEFAULT is the standard one (read from parser.y)")
     return chk.finish(
         "Decides necessary conditions of well-formed positions that are visible in the code shape: location ranges of "
